@@ -107,7 +107,7 @@ def make_harness(cfg, tw):
             feat = lambda ids: symnp.SArr.from_list([[f[i]] for i in ids], dtype="f")
             idx = lambda ids: None
             inp = dict(f=f)
-        tr = list(range(n))
+        tr = list(cfg.get("tr") or range(n))     # pre-computed branch: training rows in any order (Node.idx != position)
         X, Y, I = feat(tr), symnp.SArr.from_list(list(labels), dtype="i"), idx(tr)
         if model == "sup":
             opf.fit(X, Y, I)
